@@ -23,6 +23,85 @@ def fl(t, v):
     return t[0] == 'float' and fval(t) == v
 
 
+def merge_rem_fastpath(ps):
+    """`if 0.0 <= x && x < r { x } else { x % r }` stores exactly `x % r`: for a float x with 0 <= x < r the remainder
+    fmod(x, r) is x itself (also for -0.0; a NaN fails both tests and takes the `%`).  The short-circuit test gives three
+    paths -- {A false}, {A true, B false}: store x % r;  {A true, B true}: store x -- that differ in nothing else.  They are
+    merged into the one path `store x % r` that the rules below describe; anything else is left as it is (and fails there)."""
+    def tests(p):
+        """[(index, which, X, R, truth)] for conds of the form 0.0 <= X / X >= 0.0 (which = 'lo') and X < R ('hi')"""
+        out = []
+        for i, (c, val) in enumerate(cond_facts(p)):
+            if c[0] != 'op' or val[0] != 'bool':
+                continue
+            if c[1] == 'Le' and fl(c[2], 0.0):
+                out.append((i, 'lo', c[3], None, val[1]))
+            elif c[1] == 'Ge' and fl(c[3], 0.0):
+                out.append((i, 'lo', c[2], None, val[1]))
+            elif c[1] == 'Lt':
+                out.append((i, 'hi', c[2], c[3], val[1]))
+            elif c[1] == 'Gt':
+                out.append((i, 'hi', c[3], c[2], val[1]))
+        return out
+    groups = {}
+    for n, p in enumerate(ps):
+        ts = tests(p)
+        X = None
+        for v in p['writes'].values():
+            if v[0] == 'op' and v[1] == 'Rem':
+                X = v[2]
+            elif any(t[1] == 'hi' and t[2] == v and t[4] for t in ts) and any(t[1] == 'lo' and t[2] == v and t[4] for t in ts):
+                X = v
+        if X is None:
+            continue
+        mine = [t for t in ts if t[2] == X]
+        lo = [t for t in mine if t[1] == 'lo']
+        hi = [t for t in mine if t[1] == 'hi']
+        if len(lo) > 1 or len(hi) > 1:
+            continue
+        shape = (lo[0][4] if lo else None, hi[0][4] if hi else None)
+        R = hi[0][3] if hi else None
+        drop = {t[0] for t in mine}
+        rem = None
+        w2 = {}
+        for loc, v in p['writes'].items():
+            if shape == (True, True) and v == X:
+                v = ('op', 'Rem', X, R)
+            if v[0] == 'op' and v[1] == 'Rem' and v[2] == X:
+                rem = v[3]
+            w2[loc] = v
+        if rem is None or (R is not None and R != rem):
+            continue
+        key = repr((X, rem, [c for i, c in enumerate(p['conds']) if i not in drop], [(e['kind'], e.get('path'), e.get('args')) for e in p['events']],
+                    sorted(w2.items(), key=repr), p['ret'], p['end']))
+        groups.setdefault(key, []).append((n, shape, drop, w2))
+    out = list(ps)
+    gone = set()
+    for key, g in groups.items():
+        shapes = sorted((s for _, s, _, _ in g), key=repr)
+        if len(g) == 3 and (True, True) in shapes and ((False, None) in shapes and (True, False) in shapes or (None, False) in shapes and (False, True) in shapes):
+            n0, _, drop, w2 = g[0]
+            q = dict(ps[n0])
+            q['conds'] = [c for i, c in enumerate(q['conds']) if i not in drop]
+            q['writes'] = w2
+            out[n0] = q
+            gone |= {n for n, _, _, _ in g[1:]}
+    return [p for n, p in enumerate(out) if n not in gone]
+
+
+class _Merged:
+    """the rule context with the remainder fast path folded (see merge_rem_fastpath)"""
+
+    def __init__(self, cx):
+        self._cx = cx
+
+    def __getattr__(self, name):
+        return getattr(self._cx, name)
+
+    def paths(self, *a, **kw):
+        return merge_rem_fastpath(self._cx.paths(*a, **kw))
+
+
 def check_phase(run, cx, cfg):
     si, ni = cx.field_index(PH, 'step'), cx.field_index(PH, 'next')
     fn = PH + '::<S>::next_phase_wrapped_to'
@@ -323,7 +402,7 @@ def run(run, tier, loadcfg):
         fx_ = loadcfg(cfg, optional=(cfg == 'nostd'))
         if fx_ is None:
             continue
-        cx = Ctx(fx_)
+        cx = _Merged(Ctx(fx_))
         check_phase(run, cx, cfg)
         check_waveforms(run, cx, cfg)
         check_noise(run, cx, cfg)
